@@ -131,6 +131,12 @@ WRITERS = [
     W("G", "match-star", "(match [VF_V] [#* {s}] (do {READ}))", "list", match=True),
     W("G", "match-mapping-rest", "(match {\"k\" VF_V} {#** {s}} (do {READ}))", "kdict", match=True),
     W("G", "let", "(let [{s} VF_V] {READ})", "val", scope="inner", leaves=False),
+    # a statement that rebinds a name the enclosing let binds: afterwards the name is the new binding
+    W("G", "import-as-in-let", "(let [{s} 0] (import math :as {s}) {READ})", "mod", scope="inner"),
+    W("G", "import-from-as-in-let", "(let [{s} 0] (import math [sqrt :as {s}]) {READ})", "sqrt", scope="inner"),
+    W("G", "import-in-fn-in-let", "(let [{s} 0] (defn VF_F [] (import math [sqrt :as {s}]) {READ}) (VF_F))", "sqrt", scope="inner", leaves=False),
+    W("G", "defn-in-let", "(let [{s} 0] (defn {s} [] VF_V) {READ})", "fn", scope="inner"),
+    W("G", "defclass-in-let", "(let [{s} 0] (defclass {s} []) {READ})", "cls", scope="inner"),
     W("G", "lfor", "(lfor {s} [VF_V] {READ})", "val", scope="comp", leaves=False),
     W("G", "global-decl", "(defn VF_F [] (global {s}) (setv {s} VF_V))\n(VF_F)\n{READ}", "val"),
     W("G", "class-var", "(defclass VF_C [] (setv {s} VF_V) {READ})", "val", scope="class", leaves=False, cls=True),
